@@ -3,6 +3,7 @@
 
 #include <string.h>
 #include <cstdio>
+#include <cmath>
 
 namespace photospline{
 	
@@ -382,6 +383,15 @@ bool splinetable<Alloc>::read_fits_core(fitsfile* fits, const std::string& fileP
 		fits_read_pix(fits, TDOUBLE, &fpix, nknots[i], NULL, &knots[i][0], NULL, &error);
 		if (error != 0)
 			throw std::runtime_error("Error reading knot vector "+std::to_string(i)+" data");
+		//The knot search assumes finite, non-decreasing knots
+		for(uint64_t k=0; k<nknots[i]; k++){
+			if(!std::isfinite(knots[i][k]))
+				throw std::runtime_error("Error reading knot vector "+std::to_string(i)+" data: knot "+std::to_string(k)+" is not finite");
+		}
+		for(uint64_t k=1; k<nknots[i]; k++){
+			if(knots[i][k] < knots[i][k-1])
+				throw std::runtime_error("Error reading knot vector "+std::to_string(i)+" data: knots are not in non-decreasing order");
+		}
 	}
 	
 	//Read the axes extents, stored in a single extension HDU.
